@@ -377,7 +377,7 @@ def run(ctx):
     else:
         core.run_sharded(ctx, __name__, 'shard', getattr(ctx, 'shards_override', None) or 16, (20000, 10000, 60))
         with ctx.timed('atheris'):
-            atheris_campaigns(ctx, 8, 150000)
+            atheris_campaigns(ctx, 8, 400000)
 
 
 def extra_evidence(ctx):
